@@ -30,6 +30,20 @@ def _beh_keys(b):
   return keys
 
 
+def _const_keys(b):
+  """One key per Clear step: the order in which the constants that exist were defined, and the mode."""
+  keys, defs = [], []
+  for st in b[1:]:
+    o = st['out']
+    if o['op'] == 'DefineConstant' and o['status'] == 'ok':
+      defs.append(core.jdump(o['name']))
+    if o['op'] == 'Clear':
+      keys.append(core.jdump(['clear-consts', o['clearConstants'], st['interactive'], list(defs)]))
+      if o['clearConstants']:
+        defs = []
+  return keys
+
+
 def _observe(world):
   gin = world.gin
   obs = {}
@@ -93,6 +107,7 @@ def at_end(world, beh):
     # literal ids must map to the same concrete values in both worlds
     fresh.lits, fresh.lit_ids, fresh.lit_pool = dict(world.lits), dict(world.lit_ids), list(world.lit_pool)
     fresh.nonlits = dict(world.nonlits)
+    fresh.reserved = set(world.reserved)
     for o in keep:
       fresh.apply(o)
     o2 = _observe(fresh)
@@ -125,6 +140,12 @@ def run(tier):
     raise tlc.TLCError('design-level violation of %s:\n%s' % (res.violation, res.stdout[-3000:]))
   cc.replay_scenarios(rep, 'GinCore_Scen_clear', max_files=300 if tier == 'quick' else 3000, nontrivial=_nontrivial,
                       depth=5 if tier == 'quick' else 7, timeout=200 if tier == 'quick' else 1200, replay_fn=_replay)
+  # constants defined in and out of interactive mode (one name shadowing another), then cleared: random walks of a
+  # model with only these actions (the order of definition is not part of the specification's state, so a breadth-first
+  # scenario export cannot tell the histories apart; walks can)
+  kc = 60 if tier == 'quick' else 600
+  cc.replay_behaviours(rep, 'GinCore_Sim_clearconst', num=kc, depth=9, nontrivial=_nontrivial, generate=kc * 6, replay_fn=_replay,
+                       beh_keys=_const_keys, seed_off=31)
   k = 250 if tier == 'quick' else 4000
   cc.replay_behaviours(rep, 'GinCore_Sim_clear', num=k, depth=16, nontrivial=_nontrivial, generate=k * 8, replay_fn=_replay, beh_keys=_beh_keys)
   rep.extra.update(STATS)
